@@ -155,6 +155,30 @@ def _roundtrip(params, name, cls, mode, fields, present, expect, text):
                     want = " " + " ".join(r[:si] + [" " * max(0, width - len(r[si])) + r[si]] + r[si + 1:])
                     require(line == want, "size column alignment", field=f, line=line, want=want)
                 reach(params, "aligned")
+        # in-place edit after a dump (the class allows mutable record lists): widths must follow
+        if cls in (Release, PdiffIndex):
+            edited = False
+            for f, (subs, recs, single) in expect.items():
+                if single:
+                    continue
+                newrec = [("123456789" if s_ == "size" else "E%d" % j) for j, s_ in enumerate(subs)]
+                d[f].append(deb822.Deb822Dict(zip(subs, newrec)))
+                recs2 = recs + [newrec]
+                out3 = d.dump()
+                lines3 = out3.split("\n")
+                width = 16 if mode == "apt-ftparchive" else max(len(r[subs.index("size")]) for r in recs2)
+                start = lines3.index("%s:" % pretty(f))
+                si = subs.index("size")
+                for k, r in enumerate(recs2):
+                    want = " " + " ".join(r[:si] + [" " * max(0, width - len(r[si])) + r[si]] + r[si + 1:])
+                    require(lines3[start + 1 + k] == want, "size column alignment after an in-place edit and a second dump",
+                            field=f, line=lines3[start + 1 + k], want=want)
+                d[f].pop()
+                edited = True
+                break
+            if edited:
+                require(d.dump() == out, "dump after undoing the in-place edit differs from the first dump")
+                reach(params, "edited")
         # building from record lists
         bld = cls()
         if mode:
